@@ -81,7 +81,7 @@ pub fn region(off: usize, len: usize, padding: usize) -> &'static str {
 }
 
 /// The standard `Iterator` protocol on a public iterator of the crate: every way of consuming it
-/// (`count`, `last`, `nth`, `skip`, `step_by`, `size_hint`, calls after the end) must agree with what
+/// (`count`, `last`, `nth`, `skip`, `step_by`, calls after the end) must agree with what
 /// draining it with `next()` yields - an overridden provided method has to be observationally the
 /// default one. `mk` makes a fresh iterator, `proj` projects an item to a comparable value,
 /// `expected` is the `next()`-drain (already checked against the reference by the caller).
@@ -98,9 +98,8 @@ where
     }
     let sig = |m: &str| format!("{prop}:{what}:iterator-protocol:{m}");
     crate::run::step("iterator protocol");
-    // size_hint of a fresh iterator brackets the number of items
-    let (lo, hi) = mk().size_hint();
-    ensure!(lo <= n && hi.map(|h| n <= h).unwrap_or(true), sig("size_hint"), "{what}: size_hint() = ({lo}, {hi:?}) but next() yields {n} items");
+    // size_hint is only a hint: it is called (it must return normally), not judged
+    let _ = mk().size_hint();
     let c = mk().count();
     ensure!(c == n, sig("count"), "{what}: count() = {c} but next() yields {n} items");
     let l = mk().last().map(&proj);
@@ -121,9 +120,8 @@ where
     for _ in 0..j {
         let _ = it.next();
     }
-    let (lo, hi) = it.size_hint();
+    let _ = it.size_hint();
     let rest = n - j.min(n);
-    ensure!(lo <= rest && hi.map(|h| rest <= h).unwrap_or(true), sig("size_hint-after-next"), "{what}: after {j} next() calls size_hint() = ({lo}, {hi:?}) but {rest} items remain");
     let c = it.count();
     ensure!(c == rest, sig("count-after-next"), "{what}: after {j} next() calls count() = {c} but {rest} items remain");
     let mut it = mk();
